@@ -121,6 +121,10 @@ pub trait Runtime: Send + Sync {
     fn spurious_failure(&self) -> bool {
         false
     }
+    /// Called on a controlled thread right after an operation was performed and reported (for a
+    /// mutex release: after the lock has really been released). A runtime may suspend the calling
+    /// thread here, so that the code following the operation is not glued to it.
+    fn after(&self, _kind: OpKind) {}
 }
 
 static RUNTIME: OnceLock<&'static dyn Runtime> = OnceLock::new();
@@ -160,6 +164,10 @@ fn done(go: Go, kind: OpKind, obj: usize, order: Option<Ordering>, success: bool
                 success,
                 loc,
             });
+            // a mutex release is reported before it happens; its `after` follows the real release
+            if kind != OpKind::MutexUnlock {
+                rt.after(kind);
+            }
         }
     }
 }
@@ -466,6 +474,11 @@ pub mod sync {
             done(go, OpKind::MutexUnlock, self.owner.addr(), None, true, loc);
             self.guard.take();
             self.owner.held.store(false, StdOrdering::SeqCst);
+            if go == Go::Proceed {
+                if let Some(rt) = super::runtime() {
+                    rt.after(OpKind::MutexUnlock);
+                }
+            }
         }
     }
     /// `std::sync::Arc` and `Weak` whose reference-count operations are reported.
